@@ -94,7 +94,8 @@ def shrink(desc, scratch=None, budget=250):
             return False
         used[0] += 1
         try:
-            r = machine.execute(cand, scratch=scratch)
+            # in a forked child: a replay must not inherit module-level state from the previous one
+            r = util.run_forked(lambda: machine.execute(cand, scratch=scratch))
         except Exception:
             return False
         return same_class(r['violation'], expect)
